@@ -19,6 +19,7 @@ import (
 	"reflect"
 	"sort"
 	"strings"
+	"sync"
 	"time"
 
 	"github.com/mfcochauxlaberge/jsonapi"
@@ -124,6 +125,9 @@ type dVariant struct {
 	Wire     bool   `json:"wire"`  // include mode: the document is what UnmarshalDocument returned for the built one
 	// Served: the document object has been marshaled once before, for a request that selected fewer fields
 	Served bool `json:"served"`
+	// Busy: while the judged calls run, other goroutines marshal documents of their own (their own
+	// schema, resources and URL): callers that share nothing do not disturb each other
+	Busy bool `json:"busy"`
 }
 
 type dCase struct {
@@ -210,6 +214,18 @@ type docWorld struct {
 
 func newDocWorld(v dVariant, seed int64) *docWorld {
 	w := &docWorld{v: v, km: kindMap{Shift: v.Shift}, tb: tableFor(v.Table, seed), schema: &jsonapi.Schema{}}
+	// the schema object has a history: a type stood in front of the others and one behind them for a
+	// while, were looked up, and the one in front went away again (the others moved up)
+	must(w.schema.AddType(jsonapi.Type{Name: "aa0"}))
+	defer func() {
+		must(w.schema.AddType(jsonapi.Type{Name: "zz9"}))
+		catch(func() {
+			for _, n := range []string{"aa0", "t1", "t2", "zz9"} {
+				_, _ = w.schema.HasType(n), w.schema.GetType(n)
+			}
+		})
+		w.schema.RemoveType("aa0")
+	}()
 	for _, name := range []string{"t1", "t2"} {
 		if v.Impl == "wrap" {
 			typ, err := jsonapi.BuildType(reflect.New(structType(name, docFields[name], w.km)).Interface())
@@ -775,8 +791,45 @@ func runDocCase(c dCase) dEvent {
 				}
 			}
 			url.Params.Fields = narrow
+			// ... under another path prefix: the prefix of a document is what it says at the time
+			was := doc.PrePath
+			doc.PrePath = "https://earlier.example/v0"
 			_, _ = jsonapi.MarshalDocument(doc, url)
+			doc.PrePath = was
 			url.Params.Fields = full
+		}
+		if c.Var.Busy {
+			stop := make(chan struct{})
+			var wg sync.WaitGroup
+			for g := 0; g < 6; g++ {
+				ow := newDocWorld(c.Var, c.Seed+int64(g)+1)
+				od := permuteDoc(c.Doc, rand.New(rand.NewSource(c.Seed+int64(g))))
+				switch g {
+				case 2:
+					od = dDoc{Kind: "errors", NErrors: 2, Coll: "none"}
+				case 3, 4, 5:
+					od = randDoc(rand.New(rand.NewSource(c.Seed + int64(g)*7919))) // other documents altogether
+				}
+				var odoc *jsonapi.Document
+				var ourl *jsonapi.URL
+				if p, _ := catch(func() { odoc, ourl, _ = ow.build(od) }); p || odoc == nil || ourl == nil {
+					continue // (a document this variant cannot hold, e.g. a member of a wider type in a struct-backed world)
+				}
+				wg.Add(1)
+				go func() {
+					defer wg.Done()
+					defer func() { _ = recover() }() // (what the others do is judged when it is their turn)
+					for {
+						select {
+						case <-stop:
+							return
+						default:
+							_, _ = jsonapi.MarshalDocument(odoc, ourl)
+						}
+					}
+				}()
+			}
+			defer func() { close(stop); wg.Wait() }()
 		}
 		before := snapshot(live, url)
 		payload, err := jsonapi.MarshalDocument(doc, url)
@@ -786,10 +839,17 @@ func runDocCase(c dCase) dEvent {
 		}
 		ev.Det = dDet{AllSame: true, PermSame: true}
 		kept := append([]byte{}, payload...) // what the caller was given, byte for byte
-		for i := 1; i < c.Var.Reps; i++ {
+		reps := c.Var.Reps
+		if c.Var.Busy {
+			reps += 150 // (every one of these calls is a call whose result a client receives)
+		}
+		for i := 1; i < reps; i++ {
 			again, err := jsonapi.MarshalDocument(doc, url)
-			if err != nil || !bytes.Equal(again, payload) {
+			if err != nil || !bytes.Equal(again, kept) {
 				ev.Det.AllSame = false
+				if err == nil && c.Var.Busy && bytes.Equal(payload, kept) {
+					payload = again // the result that is looked at is one that differs, if any does
+				}
 			}
 		}
 		ev.Det.FrameOK = snapshot(live, url) == before
@@ -811,8 +871,6 @@ func runDocCase(c dCase) dEvent {
 				}
 			}
 		}
-		ev.Out = w.projOut(c.Doc, payload, url)
-		ev.Back = w.projBack(c.Doc, payload, doc)
 		// the same document object once its owner has rearranged what it is free to rearrange
 		// (the included list, the listed names): the content is the same, so are the bytes
 		seen, distinct := map[string]bool{}, true
@@ -849,6 +907,11 @@ func runDocCase(c dCase) dEvent {
 				fmt.Fprintf(os.Stderr, "FIRST %s\nAGAIN %s\n", payload, again)
 			}
 		}
+		// What the first call returned is looked at only now, after the library has marshaled the same
+		// document again, fresh copies of it and another document: the bytes are the caller's from the
+		// moment they are returned, and they are what a client would receive.
+		ev.Out = w.projOut(c.Doc, payload, url)
+		ev.Back = w.projBack(c.Doc, payload, doc)
 	})
 	switch {
 	case p:
@@ -1074,7 +1137,14 @@ func docMain(args []string) {
 			os.Stdout.Write(jsonLine(evs[len(evs)-1]))
 			return
 		}
-		os.Stdout.Write(jsonLine(runDocCase(rf.Case)))
+		ev := runDocCase(rf.Case)
+		if rf.Case.Var.Busy {
+			// with goroutines of its own a case goes wrong with some probability per run: a replay insists
+			for i := 0; i < 400 && ev.Ret == "ok" && ev.Det.AllSame && ev.Det.PermSame; i++ {
+				ev = runDocCase(rf.Case)
+			}
+		}
+		os.Stdout.Write(jsonLine(ev))
 		return
 	}
 	rng := newRand(*seed, "doc")
@@ -1179,7 +1249,11 @@ func docMain(args []string) {
 		if rng.Intn(2) == 0 {
 			v.Shift = 0
 		}
+		if v.Busy = rng.Intn(8) == 0; v.Busy {
+			stt.class("while-others-marshal")
+		}
 		c := dCase{Fam: "doc", Mode: "doc", Doc: d, Var: v, Seed: *seed}
+		w.Inflight(c)
 		ev := runDocCase(c)
 		stt.Calls += *reps + 4
 		stt.class("kind:" + d.Kind)
